@@ -79,13 +79,25 @@ def lex(data: bytes):
     return toks
 
 
-def decode_ansi(b: bytes) -> str:
+CHARSET_CODEC = {0: "cp1252", 1: "cp1252", 161: "cp1253", 162: "cp1254", 177: "cp1255", 178: "cp1256",
+                 186: "cp1257", 204: "cp1251", 238: "cp1250", 222: "cp874"}
+
+
+def decode_ansi(b: bytes, charset: int | None = None) -> str:
+    """bytes written raw or as \\'hh: decoded in the code page of the current font's \\fcharset (cp1252 for
+    charset 0/1 and when unknown); \\fcharset2 (Symbol) maps bytes >= 0x80 to the private-use block"""
+    codec = CHARSET_CODEC.get(charset if charset is not None else 0, "cp1252")
     out = []
     for x in b:
-        try:
-            out.append(bytes([x]).decode("cp1252"))
-        except UnicodeDecodeError:
+        if x < 0x80:
             out.append(chr(x))
+        elif charset == 2:
+            out.append(chr(0xF000 + x))
+        else:
+            try:
+                out.append(bytes([x]).decode(codec))
+            except UnicodeDecodeError:
+                out.append(chr(x))
     return "".join(out)
 
 
@@ -239,6 +251,10 @@ class _Body:
     def reset_para(self):
         self.para = {}
 
+    def cur_charset(self):
+        f = self.char.get("f", self.doc.deff if self.doc.deff is not None else 0)
+        return (self.doc.fonts.get(f) or {}).get("charset")
+
     def add_text(self, s: str):
         if self.skip:
             k = min(self.skip, len(s))
@@ -286,9 +302,9 @@ class _Body:
                 self.char, self.uc = self.stack.pop()
                 depth -= 1
             elif k == "bytes":
-                self.add_text(decode_ansi(t[1]))
+                self.add_text(decode_ansi(t[1], self.cur_charset()))
             elif k == "hex":
-                self.add_text(decode_ansi(bytes([t[1]])))
+                self.add_text(decode_ansi(bytes([t[1]]), self.cur_charset()))
             elif k == "sym":
                 ch = t[1]
                 if ch in "\\{}":
